@@ -94,6 +94,10 @@ package p2pke
 //@   ensures ret2 != nil ==> s.hsIndex == old(s.hsIndex) && s.nonce == old(s.nonce) && !ret0 && ret1 == nil
 //@   ensures now > old(s.expiresAt) ==> ret2 != nil
 //@   ensures len(incoming) < 4 ==> ret2 != nil
+//@   ensures [step0] old(s.hsIndex) == 0 ==> s.hsIndex == 0 || (s.isInit && s.hsIndex == 2) || (!s.isInit && s.hsIndex == 1)
+//@   ensures [step1] old(s.hsIndex) == 1 ==> s.hsIndex == 1 || s.hsIndex == 3
+//@   ensures [step2] old(s.hsIndex) == 2 ==> s.hsIndex == 2 || s.hsIndex == 4 || s.hsIndex == 8
+//@   ensures [step3] old(s.hsIndex) >= 3 ==> s.hsIndex == old(s.hsIndex) || s.hsIndex == 8
 //@   before call Decrypt:
 //@     assert s.hsIndex >= 2 && arg2 == nonce && nonce >= 4 && arg3 == incoming[:4] && arg4 == incoming[4:] && arg1 == out
 //@   after call Decrypt:
